@@ -43,6 +43,9 @@ CHECKS = {
  'C36': dict(cat='other', tech='deductive: integer postconditions on the real cqlengine DateTime.to_database over a symbolic instant and symbolic zone offsets at the value and at the epoch (datetime / tzinfo / timedelta as stubbed library contracts), Date.to_database, Integer/BigInt/VarInt.to_database; BOUNDED comparison of 22 column types with the core cqltypes serializers',
              text='Mixed: the DateTime clause of the property (exact millisecond instant, naive or aware, independent of how the zone offset varies) and the Date / integer columns are proved for all values; every other column type (floats, decimal, text, blob, inet, uuid, time, collections, tuples) is only compared with the real core serializers on boundary and random values (8 000 quick / 100 000 thorough) - bounded, not proved.',
              ref='DESIGN.md §4 C36', note='Trusted base: pyvc, the stubbed datetime/tzinfo/timedelta contract (E-DATETIME) and the oracle "whole milliseconds toward zero" taken from the core serializer (C02); the bounded part is exploration.'),
+ 'C38': dict(cat='other', tech='contract postconditions on the mechanically extracted key-serializer statement of ModelMetaClass.__new__, BaseCQLStatement/AssignmentStatement.partition_key_values and cqlengine.query._execute_statement, executed by the AST interpreter over every enumerated key shape with abstract column codecs; BOUNDED comparison of real models\' routing keys with Cassandra\'s composite encoding of the core-serialized key values',
+             text='Bounded in shape: every declaration order of up to 4 partition/clustering key columns (quick: up to 3 plus three 4-column orders), filters in 6 orders with 3 operators on 4 statement kinds, 4 completeness cases of _execute_statement; codecs abstract (packing is C30). The metaclass as a whole is outside the subset: only its routing-key statement is extracted. Real models with 6 key-capable column types and random values are a bounded stand-in.',
+             ref='DESIGN.md §4 C38', note='Trusted base: the extraction of one statement of ModelMetaClass.__new__ by source pattern (stated in the evidence), the pyvc interpreter, C30 for the packing; exploration, not proof.'),
  'C31': dict(cat='proof', tech='deductive: lock-invariant proof of MonotonicTimestampGenerator.__call__ for arbitrary clock and history + frame scan',
              text='Lock invariant (all returned timestamps <= last) proved preserved by __call__ for an arbitrary prior state and clock reading; '
                   'strict monotonicity across threads follows for lock-respecting schedules; unprotected reads/writes of `last` fail an obligation.',
